@@ -138,13 +138,19 @@ def _work(unit):
                 h.run(gg, case)
 
             try:
+                slice_end = time.time() + opts.get("slice_s", 20.0)
+                if opts.get("deadline"):
+                    slice_end = min(slice_end, opts["deadline"])
                 failures, exhausted = g.explore(
-                    fn, deadline=opts.get("deadline"), on_path=on_path,
-                    max_paths=opts.get("max_paths"))
+                    fn, deadline=slice_end, on_path=on_path,
+                    max_paths=opts.get("max_paths"), start_prefix=opts.get("prefix"))
                 out["inconclusive"] = None
+                out["remaining"] = g.remaining
             except Inconclusive as e:
                 failures, exhausted = [], False
                 out["inconclusive"] = f"solver unknown: {e}"
+                out["remaining"] = []
+            out["opts"] = {k: v for k, v in opts.items() if k in ("case_id",)}
             out.update(paths=g.paths, infeasible=g.infeasible_paths, queries=g.queries,
                        solver_s=g.solver_s, obligations=g.obligations, discharged=g.discharged,
                        notes=g.notes_total, failures=[f.as_dict() for f in failures],
@@ -274,21 +280,37 @@ def run_check(prop, harness_specs, tier, seed, explanation, level="other", budge
     stop = False
     not_exhausted = 0
 
+    import collections
+    import queue as _queue
     ctx = mp.get_context("fork")
-    pool = ctx.Pool(nproc, maxtasksperchild=200)
+    pool = ctx.Pool(nproc, maxtasksperchild=100)
+    rpool = ctx.Pool(1)       # replays must not queue behind the exploration units
+    resq = _queue.Queue()
+    pending = collections.deque()
+    case_open = {}            # case_id -> number of outstanding sub-units
+    case_ok = {}              # case_id -> all sub-units so far exhausted or split cleanly
+    for i, u in enumerate(units):
+        if u[0] == "explore":
+            u[4]["case_id"] = i
+            case_open[i] = 1
+            case_ok[i] = True
+        pending.append(u)
+    outstanding = 0
+
+    def submit(u):
+        pool.apply_async(_work, (u,), callback=resq.put,
+                         error_callback=lambda e, u=u: resq.put({"kind": u[0], "harness": u[2], "module": u[1],
+                                                                 "case": u[3], "error": repr(e), "opts": u[4]}))
     try:
-        it = pool.imap_unordered(_work, units, chunksize=1)
-        total = len(units)
-        done = 0
-        while done < total:
+        while (pending or outstanding) and not stop:
+            while pending and outstanding < nproc * 2:
+                submit(pending.popleft())
+                outstanding += 1
             try:
-                r = it.next(timeout=max(1.0, deadline - time.time() + 30))
-            except mp.TimeoutError:
-                not_exhausted += total - done
+                r = resq.get(timeout=max(1.0, deadline - time.time() + 60))
+            except _queue.Empty:
                 break
-            except StopIteration:
-                break
-            done += 1
+            outstanding -= 1
             st = stats[r["harness"]]
             if r["error"]:
                 errors.append((r["harness"], r["case"], r["error"]))
@@ -302,7 +324,7 @@ def run_check(prop, harness_specs, tier, seed, explanation, level="other", budge
                 else:
                     errors.append((r["harness"], r["case"], "concolic agreement: " + json.dumps(a, default=str)[:1500]))
                 continue
-            st["cases"] += 1
+            cid = r["opts"]["case_id"]
             st["paths"] += r["paths"]
             st["infeasible"] += r["infeasible"]
             st["queries"] += r["queries"]
@@ -316,17 +338,28 @@ def run_check(prop, harness_specs, tier, seed, explanation, level="other", budge
                 st["notes"][k] = st["notes"].get(k, 0) + v
             if r["inconclusive"]:
                 inconclusive.append((r["harness"], r["case"], r["inconclusive"]))
-            if r["exhausted"]:
-                st["cases_exhausted"] += 1
-            elif not r["inconclusive"] and not r["failures"]:
-                not_exhausted += 1
+                case_ok[cid] = False
+            case_open[cid] -= 1
+            if not r["exhausted"] and not r["inconclusive"]:
+                if time.time() < deadline and r["remaining"]:
+                    for pf in r["remaining"]:
+                        pending.append(("explore", r["module"], r["harness"], r["case"],
+                                        {"deadline": deadline, "prefix": pf, "case_id": cid, "samples": 0}))
+                        case_open[cid] += 1
+                elif not r["failures"]:
+                    case_ok[cid] = False
+            if case_open[cid] == 0:
+                st["cases"] += 1
+                if case_ok[cid]:
+                    st["cases_exhausted"] += 1
+                else:
+                    not_exhausted += 1
             seen_tags = set()
             for f in r["failures"]:
                 if f["tag"] in seen_tags:
                     continue
                 seen_tags.add(f["tag"])
                 pending_fail.append((r, f))
-            # replay new failures now (in the parent, in a worker process to keep z3 out of here)
             while pending_fail:
                 rr, f = pending_fail.pop()
                 key = (rr["harness"], f["tag"])
@@ -335,8 +368,8 @@ def run_check(prop, harness_specs, tier, seed, explanation, level="other", budge
                     continue
                 if any(v["harness"] == rr["harness"] and v["tag"] == f["tag"] for v in violations):
                     continue
-                rep = pool.apply(_work, (("replay", rr["module"], rr["harness"], rr["case"],
-                                          {"values": f["values"], "tag": f["tag"]}),))
+                rep = rpool.apply(_work, (("replay", rr["module"], rr["harness"], rr["case"],
+                                           {"values": f["values"], "tag": f["tag"]}),))
                 if rep["error"] or not rep["replay"]["reproduced"]:
                     errors.append((rr["harness"], rr["case"],
                                    f"counterexample did not reproduce concretely: tag={f['tag']} "
@@ -351,11 +384,13 @@ def run_check(prop, harness_specs, tier, seed, explanation, level="other", budge
                                    "replay_mode": rep["replay"].get("mode")})
                 if not os.environ.get("VERIF_KEEP_GOING"):
                     stop = True
-            if stop:
-                break
+        if not stop:
+            not_exhausted += sum(1 for c, n in case_open.items() if n > 0)
     finally:
         pool.terminate()
+        rpool.terminate()
         pool.join()
+        rpool.join()
 
     wall = time.time() - t0
     # ---- vacuity: reachability counters
